@@ -5,6 +5,8 @@
 pub mod util;
 
 pub mod c03;
+pub mod c11;
+pub mod c12;
 pub mod c13;
 pub mod c14;
 pub mod c32;
